@@ -178,6 +178,32 @@ def real_parse(work, data):
             os.unlink(work.path)
         except OSError:
             pass
+    out = _view(im)
+    if _KEEP is not None and len(_KEEP) < 300 and ' | ' in out:
+        _KEEP.append((im, out, bytes(data)))
+    return out
+
+
+_KEEP = None      # when a list: parsed images are kept alive and re-read after later parses
+
+
+def recheck_kept(ctx):
+    """an UpgradeImage object must keep the values of ITS file after other images were parsed"""
+    kept = _KEEP or []
+    for i, (im, out, data) in enumerate(kept):
+        ctx.case(('re-read', data))
+        ctx.count('parse:re-read-after-later-parses')
+        now = _view(im)
+        if now != out:
+            later = kept[i + 1:i + 3] + kept[-2:]
+            ctx.violate('C18:parse:result-changed-by-later-parse',
+                        'a parsed image reads differently after later images were parsed (state shared between '
+                        'parsed objects)', {'kind': 'reread', 'data': _hx(data), 'later': [_hx(x[2]) for x in later]},
+                        expected=_first_diff(out, now), observed=_first_diff(now, out))
+            return
+
+
+def _view(im):
     try:
         h = im.header
         parts = ['H sig=%s fv=%d dev=%d man=%d prod=%d time=%d cap=%d comps=%s st=%d rb=%d ina=%d ecr=%s fr=%s '
@@ -855,6 +881,8 @@ def _streams(ctx, tag, scale):
             if got != _nl(want):
                 ctx.disagree('generated-constants', {}, got, _nl(want))
         variant = probe_variant(ctx, work)
+        global _KEEP
+        _KEEP = []
         rng = ctx.rng(tag + '/parse')
         n = 0
         for label, img in directed_images(rng):
@@ -864,6 +892,9 @@ def _streams(ctx, tag, scale):
             check_image(ctx, drv, work, variant, 'random%d' % i, gen_image(rng, ctx.tier), sample=(i % 40 == 0))
             if ctx.time_left() < 40:
                 break
+        recheck_kept(ctx)
+        ctx.extra['kept_results_re_read'] = len(_KEEP or [])
+        _KEEP = None
         malformed_stream(ctx, drv, work, variant, ctx.rng(tag + '/malformed'), int(60 * scale))
         chunks_stream(ctx, drv, ctx.rng(tag + '/chunks'), int(150 * scale))
         upload_streams(ctx, drv, ctx.rng(tag + '/upload'), scale)
@@ -898,6 +929,23 @@ def replay(ctx, v):
             print('  specification demands: %s' % exp[:300])
             print('  UpgradeImage() gives : %s' % real[:300])
             judge_parse(c2, case, exp, real)
+        finally:
+            work.close()
+    elif case.get('kind') == 'reread':
+        import pyipmi.hpm as H
+        work = Work(c2)
+        try:
+            def load(hx):
+                with open(work.path, 'wb') as f:
+                    f.write(bytes.fromhex(hx) if hx != '-' else b'')
+                return H.UpgradeImage(work.path)
+            im = load(case['data'])
+            first = _view(im)
+            keep = [load(hx) for hx in case['later']]
+            now = _view(im)
+            print('  right after parsing  : %s' % first[:300])
+            print('  after %d later parses : %s' % (len(keep), now[:300]))
+            return now != first
         finally:
             work.close()
     elif case.get('kind') == 'upload':
